@@ -28,7 +28,7 @@ LEVEL_TEXT = ("Partial: necessary structural conditions only - the weight formul
               "the membership predicates of the occluder sets (evaluated on every combination of their atoms) and the data flow of the irradiance arguments. The property's "
               "core (bounds, 0.97, monotonicity) depends on ray-casting results over runtime geometry and is NOT decided by this family.")
 LEVEL_NOTE = "Trusted: rustc MIR."
-TECHNIQUE = "normalised formula comparison, return-site/dominance reading, finite truth tables of filter closures, def-use provenance"
+TECHNIQUE = "normalised formula comparison, return-site/dominance reading, finite truth tables of filter closures, def-use provenance, must-pass-through over the hour loop, exact symbolic reveal geometry"
 FIXTURE_EXPECT = ["c12.exit"]
 
 
